@@ -252,7 +252,7 @@ def plan(prop, tier, seed):
             full = {"SolCases": "SOL_Cases", "FromCases": "SOL_FromFull"}
             legs.append(lambda: lab_leg("LabSOL", 1, 16, REALISTIC, seed, overrides=full, tag="full"))
             legs.append(lambda: lab_leg("LabSOL", 1, 16, DECIMAL, seed, overrides=full, tag="fulldec"))
-            legs.append(lambda: lab_leg("LabSOL", 1, 16, ("777.7", "31000"), seed, overrides=full, tag="fullodd"))
+            legs.append(lambda: lab_leg("LabSOL", 1, 16, ("7777", "310000"), seed, overrides=full, tag="fullodd"))
     if prop == "C16":
         legs.append(lambda: recipe_leg("RecipeLife", 5 if q else 6, 16, REALISTIC, seed))
         legs.append(lambda: trace_leg())
